@@ -519,7 +519,7 @@ int vnadata_convert(const vnadata_t *vdp_in, vnadata_t *vdp_out,
 	    if (new_rows < new_columns) {
 		new_columns = new_rows;
 	    }
-	    new_rows = 1;
+	    new_rows = new_columns > 0 ? 1 : 0;
 	}
 
 	/*
@@ -672,7 +672,7 @@ int vnadata_convert(const vnadata_t *vdp_in, vnadata_t *vdp_out,
 	if (vdp_out->vd_rows < vdp_out->vd_columns) {
 	    vdp_out->vd_columns = vdp_out->vd_rows;
 	}
-	vdp_out->vd_rows = 1;
+	vdp_out->vd_rows = vdp_out->vd_columns > 0 ? 1 : 0;
     }
     return 0;
 }
